@@ -59,10 +59,13 @@ def applyRecords (s : Sys) (o : Nat) (rs : List Rec) : Sys :=
   { store := s.store ++ rs.map (fun r => { owner := o, r := r }),
     trees := fun x => if x = o then s.trees o ++ rs.map (·.commit) else s.trees x }
 
+/-- Search positions `< n` downwards for a record with commit `c` (backward iteration). -/
+def findLastAux (rows : List Rec) (c : H) : Nat → Option Nat
+  | 0 => none
+  | n + 1 => if (rows[n]?.map (·.commit)) = some c then some n else findLastAux rows c n
+
 /-- Position (in this log's rows) of the newest record with the given commit. -/
-def findLast (rows : List Rec) (c : H) : Option Nat :=
-  let idxs := (List.range rows.length).filter (fun i => (rows[i]?.map (·.commit)) = some c)
-  idxs.getLast?
+def findLast (rows : List Rec) (c : H) : Option Nat := findLastAux rows c rows.length
 
 /-- Keep the first `n` rows of log `o`, leave every other log's rows alone. -/
 def keepFirst : List Row → Nat → Nat → List Row
